@@ -169,10 +169,13 @@ int World::exec_array(const Op &op) {
         NDSize ext = x.dataExtent();
         size_t rank = ext.size();
         bool is_str = x.dataType() == DataType::String;
-        arg_class = "dtype=" + dtype_name(x.dataType()) + ",rank=" + std::to_string(rank) + ",wrong-eltype,any-array";
         std::vector<std::string> sv(64, "s"); std::vector<double> dv(64, 1.0);
         const void *buf = is_str ? (const void *) dv.data() : (const void *) sv.data();
         DataType mt = is_str ? DataType::Double : DataType::String;
+        // ... or data tagged with an element type the library does not store at all (raw-pointer entry points only)
+        int unsupported = op.kind == OP_arr_write_whole ? 0 : (int) r.below(4);
+        if (unsupported) { static const DataType un[] = {DataType::Char, DataType::Nothing, DataType::Opaque}; mt = un[unsupported - 1]; buf = dv.data(); }
+        arg_class = "dtype=" + dtype_name(x.dataType()) + ",rank=" + std::to_string(rank) + (unsupported ? ",unsupported-eltype,any-array" : ",wrong-eltype,any-array");
         try {
             if (op.kind == OP_arr_write_whole) {
                 if (rank != 1) return 2;
